@@ -1,6 +1,8 @@
 package rules
 
 import (
+	"go/types"
+	"go/constant"
 	"fmt"
 	"go/token"
 	"sort"
@@ -31,6 +33,10 @@ func runC18(e *Env) {
 	r.Rule("C18.R3", "flows", "housekeeping time is the tick's now / time.Now() without offset", 8)
 	r.Rule("C18.R4", "paths+flows", "keep-alive counter, generation and cancel discipline", 6)
 	r.Rule("C18.R5", "callgraph", "other received traffic resets the keep-alive failure count", 1)
+	r.Rule("C18.R6", "paths", "the tick reaches every registered connection: no early exit from the fan-out loops, collecting callbacks never stop the iteration", 6)
+	if e.want("C18.R6") {
+		c18FanOut(e)
+	}
 	if e.want("C18.R1") {
 		if f := e.fn("C18.R1", "udp/client.Conn.Process"); f != nil {
 			nts := core.Calls(f, func(n string, _ ssa.CallInstruction) bool { return strings.HasSuffix(n, "InactivityMonitor.Notify") })
@@ -290,4 +296,80 @@ func checkKeepAlivePerConn(e *Env, rule string) {
 		}
 	}
 	e.R.Check(okPer && n >= 2, rule, "options.KeepAliveOpt:state-per-connection", "-", fmt.Sprintf("all %d NewKeepAlive calls sit inside the per-connection factory closures", n), "keep-alive state is created outside the per-connection factory: all connections of a server would share one failure counter")
+}
+
+// c18FanOut: every server's periodic tick must give each registered connection its CheckExpirations(now). The fan-out is a
+// loop over a snapshot of the container; the rule requires (a) the tick closure calls the fan-out unconditionally, (b) loops in the
+// fan-out functions are left only when exhausted (no break/return from the body), (c) callbacks handed to a Range-style iterator in
+// them return true on every path (false stops the iteration), (d) the body calls the element's CheckExpirations on the not-closed arm.
+func c18FanOut(e *Env) {
+	rule := "C18.R6"
+	for _, fn := range []string{"pkg/connections.Connections.CheckExpirations", "pkg/connections.Connections.copyConnections", "udp/server.Server.handleInactivityMonitors", "udp/server.Server.getConns"} {
+		f := e.fn(rule, fn)
+		if f == nil {
+			continue
+		}
+		fs := []*ssa.Function{f}
+		fs = append(fs, f.AnonFuncs...)
+		bad := ""
+		for _, g := range fs {
+			if w := earlyLoopExit(g); w != "" {
+				bad = w + " at " + e.fpos(g)
+			}
+			if g != f {
+				// a callback: an iterator callback stops the iteration by returning false
+				if g.Signature.Results().Len() == 1 {
+					if b, ok := g.Signature.Results().At(0).Type().Underlying().(*types.Basic); ok && b.Kind() == types.Bool {
+						for _, ret := range core.ReturnsOf(g) {
+							c, isC := core.RetVal(ret, 0).(*ssa.Const)
+							if !isC || c.Value == nil || !constant.BoolVal(c.Value) {
+								bad = "the iterator callback can return false (stops the iteration) at " + e.pos(ret)
+							}
+						}
+					}
+				}
+			}
+		}
+		e.R.Check(bad == "", rule, fn+":visits-all", e.fpos(f), "loops run to exhaustion; iterator callbacks always continue", "a connection registered after the one that triggers the exit never gets its tick (no inactivity close, no keep-alive ping): "+bad)
+	}
+	for _, fn := range []string{"pkg/connections.Connections.CheckExpirations", "udp/server.Server.handleInactivityMonitors"} {
+		f := e.fn(rule, fn)
+		if f == nil {
+			continue
+		}
+		n := 0
+		for _, g := range append([]*ssa.Function{f}, f.AnonFuncs...) {
+			n += len(core.Calls(g, func(name string, _ ssa.CallInstruction) bool { return strings.HasSuffix(name, ".CheckExpirations") }))
+		}
+		e.R.Check(n >= 1, rule, fn+":ticks-element", e.fpos(f), "each element's CheckExpirations is called", "the fan-out no longer calls the element's CheckExpirations")
+	}
+}
+
+// earlyLoopExit reports an edge that leaves a loop from a block other than a loop header (break, return or goto out of the body).
+// Exits into a block that panics are ignored.
+func earlyLoopExit(f *ssa.Function) string {
+	lb := loopBlocks(f)
+	for b := range lb {
+		for _, s := range b.Succs {
+			if lb[s] && reaches(s, b) {
+				continue
+			}
+			if len(s.Instrs) > 0 {
+				if _, isPanic := s.Instrs[len(s.Instrs)-1].(*ssa.Panic); isPanic {
+					continue
+				}
+			}
+			// leaving the loop: fine only from a header, i.e. a block that also has a predecessor outside the cycle
+			header := false
+			for _, p := range b.Preds {
+				if !lb[p] || !reaches(b, p) {
+					header = true
+				}
+			}
+			if !header {
+				return "the loop body can leave the loop early (block " + b.Comment + " → " + s.Comment + ")"
+			}
+		}
+	}
+	return ""
 }
